@@ -15,9 +15,16 @@ for name in names:
     if subprocess.run(["git", "-C", "/repo", "diff", "--quiet"]).returncode != 0:
         print("/repo not clean"); sys.exit(2)
     a = subprocess.run(["git", "-C", "/repo", "apply", patch], capture_output=True, text=True)
+    fuzz = False
     if a.returncode != 0:
-        results[name] = {"property": prop, "applies": False, "note": a.stderr.strip()[:200]}
-        print(name, "does not apply"); continue
+        # the lines around the change have moved since the patch was cut (later fix: commits): same hunks, looser context
+        f = subprocess.run("patch -p1 -F3 --no-backup-if-mismatch -d /repo < '%s'" % patch, shell=True, capture_output=True, text=True)
+        subprocess.run("find /repo -name '*.rej' -delete; find /repo -name '*.orig' -delete", shell=True)
+        if f.returncode != 0:
+            subprocess.run(["git", "-C", "/repo", "checkout", "--", "."])
+            results[name] = {"property": prop, "applies": False, "note": a.stderr.strip()[:200]}
+            print(name, "does not apply"); continue
+        fuzz = True
     t0 = time.time()
     ev = os.path.join(ROOT, "evidence", prop + ".json")
     ev_saved = open(ev).read() if os.path.exists(ev) else None     # evidence describes the unchanged tree: put it back afterwards
@@ -35,5 +42,7 @@ for name in names:
     concrete = sum(1 for v in viol if "no-failing-input-found" not in v)
     results[name] = {"property": prop, "applies": True, "exit": rc, "violation_lines": len(viol), "with_concrete_input": concrete,
                      "only_no_failing_input_found": bool(viol) and concrete == 0, "seconds": round(time.time() - t0, 1)}
+    if fuzz:
+        results[name]["applied_with_fuzz"] = True
     print(name, results[name])
     json.dump(results, open(res_path, "w"), indent=1, sort_keys=True)
